@@ -127,6 +127,11 @@ def parse_template(path):
                 item.inserts.append((where, int(n), int(m), rx, tail[2:].strip()))
             elif word == "spec":
                 item.spec = []; payload = item.spec
+            elif word == "spec-file":
+                # contract text shared verbatim with the units that ASSUME this contract (cross-unit sync by construction)
+                with open(os.path.join(VERIF, rest)) as sf:
+                    item.spec = [l for l in sf.read().split("\n") if l.strip()]
+                payload = item.spec
             elif word == "loop":
                 k, what = rest.split(" ", 1)
                 k = int(k)
@@ -428,13 +433,23 @@ def assemble(unit, vacuity=False, outdir=None):
                 for line in ch[1]:
                     if "/*VACPROBE*/" in line:
                         line = line.replace("/*VACPROBE*/", "proof { assert(false); } // VACUITY-PROBE" if vacuity else "")
+                    if "/*VACPROBE-PROOF*/" in line:
+                        line = line.replace("/*VACPROBE-PROOF*/", "assert(false); // VACUITY-PROBE" if vacuity else "")
                     t = parse_tag(line)
                     if t is not None: label, props = t
                     elif line.strip() == "" or line.startswith("}"): label, props = None, None   # a literal tag's scope ends with its item
                     segs.append(Seg(line + "\n", "literal", label, props)); item_of_seg.append(None)
             elif ch[0] == "include":
                 ip = os.path.join(VERIF, ch[1])
-                do_chunks(parse_template(ip), ch[1])
+                if ch[1].endswith(".spec"):
+                    # shared contract text used as an ASSUMED contract here: labels are dropped (no obligation arises)
+                    with open(ip) as sf:
+                        for line in sf.read().split("\n"):
+                            if not line.strip(): continue
+                            line = re.sub(r"//#.*$", "// (assumed here; proved in the unit that extracts this function)", line)
+                            segs.append(Seg(line + "\n", "literal", None, None)); item_of_seg.append(None)
+                else:
+                    do_chunks(parse_template(ip), ch[1])
             elif ch[0] == "meta":
                 if ch[1] == "default-props": meta["default-props"] = ch[2].split()
             elif ch[0] == "item":
